@@ -45,6 +45,7 @@ type Contract struct {
 	Witness  map[string]string
 	Unordered map[int]string // map-range ordinal -> the only entry point from which the function may be reached
 	UsesOnly []UsesOnly
+	Sites    []SiteClause
 	Bound    bool
 	Terminates bool
 	Assigns  []string
@@ -65,9 +66,10 @@ type SpecFunc struct {
 	Body   ast.Expr
 	Pkg    string
 	Text   string
+	Opaque bool
 }
 
-var kwRe = regexp.MustCompile(`^(func|spec|requires|ensures|decreases|loop|safe|modular|terminates|witness|witnessgo|unordered|usesonly|nobody|end)\b`)
+var kwRe = regexp.MustCompile(`^(func|spec|requires|ensures|decreases|loop|safe|modular|terminates|witness|witnessgo|unordered|usesonly|mapwrite|callsite|nobody|end)\b`)
 
 func (e *Engine) loadContracts() error {
 	e.contracts = map[string]*Contract{}
@@ -159,6 +161,13 @@ func (e *Engine) parseContractFile(file, pkgPath, data string) error {
 			eqi := strings.Index(rest, "=")
 			head := strings.TrimSpace(rest[:eqi])
 			body := strings.TrimSpace(rest[eqi+1:])
+			opaque := false
+			if strings.HasPrefix(head, "opaque ") {
+				// abstract predicate: expanded only inside its own package; elsewhere an uninterpreted
+				// function of its arguments and of the heap locations its body reads
+				opaque = true
+				head = strings.TrimSpace(strings.TrimPrefix(head, "opaque "))
+			}
 			op := strings.Index(head, "(")
 			name := strings.TrimSpace(head[:op])
 			var params []string
@@ -172,7 +181,7 @@ func (e *Engine) parseContractFile(file, pkgPath, data string) error {
 			if err != nil {
 				return fmt.Errorf("%s:%d: %v in %q", file, l.line, err, body)
 			}
-			e.specFuncs[name] = &SpecFunc{Name: name, Params: params, Body: ex, Pkg: pkgPath, Text: body}
+			e.specFuncs[name] = &SpecFunc{Name: name, Params: params, Body: ex, Pkg: pkgPath, Text: body, Opaque: opaque}
 		case "func":
 			cur = &Contract{Func: rest, Pkg: pkgPath, LoopInv: map[int][]*Clause{}, LoopDecr: map[int]*Clause{}, Witness: map[string]string{}, Line: l.line, File: file}
 			e.contracts[rest] = cur
@@ -215,6 +224,18 @@ func (e *Engine) parseContractFile(file, pkgPath, data string) error {
 				cur.LoopDecr[n] = c
 			} else {
 				return fmt.Errorf("%s:%d: bad loop clause %q", file, l.line, kind)
+			}
+		case "mapwrite", "callsite":
+			// mapwrite[tags] <pkg.Global> <expr over key, value and locals>
+			// callsite[tags] <callee name> <expr over a_<param> and locals>
+			// assertion at every direct write to that map / direct call of that callee in this function
+			if len(fields) >= 3 {
+				text := strings.TrimSpace(strings.TrimPrefix(rest, fields[1]))
+				ex, err := parseSpecExpr(text)
+				if err != nil {
+					return fmt.Errorf("%s:%d: %v in %q", file, l.line, err, text)
+				}
+				cur.Sites = append(cur.Sites, SiteClause{Kind: kw, Target: fields[1], Expr: ex, Tags: tags, Text: text})
 			}
 		case "usesonly":
 			// usesonly[tags] <param | result-of:<callee>> <allowed callee>[,<allowed callee>...]
@@ -914,6 +935,9 @@ func (env *SpecEnv) call(x *ast.CallExpr) Val {
 		inner := &SpecEnv{f: f, vars: map[string]Val{}, st: env.st, old: env.old, result: env.result, pkg: sf.Pkg, depth: env.depth + 1}
 		for i, p := range sf.Params {
 			inner.vars[p] = env.eval(x.Args[i])
+		}
+		if sf.Opaque && currentTopPkg != sf.Pkg && !vc.eng.transparent[name] {
+			return inner.opaqueApp(sf)
 		}
 		return inner.eval(sf.Body)
 	}
